@@ -96,6 +96,10 @@ def natural_matrix(ctx):
         # screening disabled: induced potential identically zero in every frame
         dict(dev="bar", dt_init=d6, dt_max=0.1, current=4.0, field=0.5, solve_time=0.3, k=2),
         dict(dev="barhole", adaptive=False, dt_init=d6, current=2.0, field=1.0, solve_time=0.2, k=3),
+        # history: screening disabled, but the run is seeded (seed_solution=) from a SCREENED solution whose induced
+        # potential is not zero: the clause "identically zero with screening disabled" must still hold in every frame
+        dict(dev="bar", adaptive=False, dt_init=d6, current=4.0, field=0.5, solve_time=4 * d6 - d6 / 2, k=2,
+             seed=dict(screening=True, tol=1e-3)),
     ]
     if ctx.quick:
         return base
@@ -178,6 +182,9 @@ def run(ctx):
     # vacuity guards
     st = [t["stats"] for t in ntraces]
     scr = [t for t in ntraces if t["params"].get("screening")]
+    seeded = [t for t in ntraces if t["params"].get("seed") is not None and not t["params"].get("screening")]
+    if not any((t["stats"]["seed_max_induced"] or 0) > 0 and t["stats"]["frames"] >= 2 for t in seeded):
+        raise core.MachineryFailure("no unscreened run seeded from a screened solution with a non-zero induced potential")
     if not (any(t["raised"] == "screening" for t in scr) and sum(t["stats"]["frames"] for t in scr) >= 8
             and max(t["stats"]["max_screening_iterations"] for t in scr) >= 5
             and any(not t["params"].get("screening") and t["stats"]["frames"] >= 3 for t in ntraces)):
